@@ -137,9 +137,12 @@ public:
    ///    The name of the attribute.
    /// @param[in]  value
    ///    The value for the attribute.
+   /// @return
+   ///    An identification of the added attribute, can be used to remove
+   ///    exactly this attribute again with removeAttributeById().
    /// @since
    ///    1.15.0, 10.10.2018
-   void addAttribute( const std::string& name, const std::string& value);
+   size_t addAttribute( const std::string& name, const std::string& value);
 
    /// Returns the value for an attribute.
    /// If multiple attributes with the same name exist, the values of the last
@@ -159,6 +162,14 @@ public:
    /// @param[in]  attr_name  The name of the attribute to remove.
    /// @since  1.15.0, 11.10.2018
    void removeAttribute( const std::string& attr_name);
+
+   /// Removes exactly the attribute for which addAttribute() returned the
+   /// given identification. Does nothing if this attribute does not exist
+   /// anymore.
+   ///
+   /// @param[in]  attr_id  The identification of the attribute to remove.
+   /// @since  01.10.2026
+   void removeAttributeById( size_t attr_id);
 
    /// Dumps information about the logging framework.
    ///
